@@ -1296,6 +1296,10 @@ extern "C" {
             break;
           }
           case dr_dag_node_kind_other: 
+            /* the edge from an "other" interval to what follows it */
+            if (x->next) {
+              s->info.logical_edge_counts[dr_dag_edge_kind_other_cont]++;
+            }
             break;
           case dr_dag_node_kind_section:
             if (x->next) {
